@@ -32,8 +32,8 @@ theorem author_namespace_kept (cfg : Doc.RootCfg) (orig : Attrs) (hn : Attrs.Nod
 /-- (ii) real SVG is handed through unprocessed, under every configuration (see also C03) -/
 theorem second_pass_not_processed {ρ : Type} (ev : Ctl.Evalr ρ) (fuel : Nat) (st : Ctl.St ρ) (ks : Ctl.Nodes)
     (h : Ctl.isRealSvg ks.toList = true) :
-    (Ctl.processNodes ev (fuel + 1) st ks).2 = .ok (Ctl.rawNodes ks, none) := by
-  rw [Ctl.processNodes]; simp [h]
+    Ctl.transformDoc ev fuel st ks = (true, st, .ok (Ctl.rawNodes ks, none)) := by
+  simp [Ctl.transformDoc, h]
 
 /-- (iii) **read-then-write reproduces the document** whenever end tags carry no blank before `>` and a
     DOCTYPE keyword is followed by one blank — which is how the writer itself writes them, so it holds
